@@ -204,6 +204,317 @@ def norm_ws(s):
     return re.sub(r"\s+", "", s)
 
 
+
+# ------------------------------------------------------------------------------------------------
+# round 4: control tables (which index goes where) and the LAPACK call sites
+# ------------------------------------------------------------------------------------------------
+def nat_expr(text, env):
+    """integer size expression (`3*N -1`, `dim * dim`, `lwork`, `c ? 4*N : 3*N`) -> Lean term over Nat; `env` maps the
+    C++ names that may occur to Lean terms"""
+    text = text.strip()
+    m = re.match(r"^(\w+)\s*\?\s*([^:?]+):([^:?]+)$", text)
+    if m:
+        if m.group(1) not in env.get("__bools__", ()):
+            raise TranslateError("condition %r of a size expression is not the eigenvector request" % m.group(1))
+        return "(if vec then %s else %s)" % (nat_expr(m.group(2), env), nat_expr(m.group(3), env))
+    toks = re.findall(r"\s*([A-Za-z_]\w*|[0-9]+|[-+*()])", text)
+    if "".join(toks) != norm_ws(text):
+        raise TranslateError("size expression %r outside the grammar" % text)
+    out = []
+    for t in toks:
+        if t.isdigit() or t in "+-*()":
+            out.append(t)
+        elif t in env:
+            out.append(env[t])
+        else:
+            raise TranslateError("name %r not expected in size expression %r" % (t, text))
+    return "(" + " ".join(out) + ")"
+
+
+def call_args(body, fname, what):
+    m = one(r"\b%s\s*\(([^;]*)\)\s*;" % fname, body, what + ": call of " + fname)
+    return [norm_ws(a) for a in m.split(",")]
+
+
+def ptr_name(arg, what):
+    """`&x[0]`, `x`, `x.get()`, `&x` -> x"""
+    m = re.match(r"^&?(\w+)(?:\[0\]|\.get\(\)|\.data\(\))?$", arg)
+    if not m:
+        raise TranslateError("%s: argument %r is not a plain buffer/variable" % (what, arg))
+    return m.group(1)
+
+
+def char_decl(body, name, what, bools=()):
+    """`const char name = 'c';` or `= flag ? 'a' : 'b';` or `= "ab"[Tag];` -> ('lit', c) | ('cond', a, b) | ('tab', s)"""
+    e = one(r"const\s+char\s+%s\s*=\s*([^;]+);" % name, body, what + ": declaration of " + name).strip()
+    m = re.match(r"^'(\w)'$", e)
+    if m:
+        return ("lit", m.group(1))
+    m = re.match(r"^(\w+)\s*\?\s*'(\w)'\s*:\s*'(\w)'$", e)
+    if m and m.group(1) in bools:
+        return ("cond", m.group(2), m.group(3))
+    m = re.match(r'^"(\w+)"\s*\[\s*Tag\s*\]$', e)
+    if m:
+        return ("tab", m.group(1))
+    raise TranslateError("%s: job character %s = %r outside the grammar" % (what, name, e))
+
+
+def int_decl(body, name, what):
+    return one(r"const\s+long\s+int\s+%s\s*=\s*([^;]+);" % name, body, what + ": declaration of " + name)
+
+
+def pack_orientation(body, dimname, what):
+    """the copy loop into the flat LAPACK array: False = `matrix[i][j]` (row-major), True = `matrix[j][i]`"""
+    rx = (r"int\s+row\s*=\s*0\s*;\s*for\s*\(\s*int\s+i\s*=\s*0\s*;\s*i\s*<\s*%s\s*;\s*\+\+i\s*\)\s*\{\s*"
+          r"for\s*\(\s*int\s+j\s*=\s*0\s*;\s*j\s*<\s*%s\s*;\s*\+\+j\s*,\s*\+\+row\s*\)\s*\{\s*"
+          r"(\w+)\s*\[\s*row\s*\]\s*=\s*matrix\s*\[\s*([ij])\s*\]\s*\[\s*([ij])\s*\]\s*;\s*\}\s*\}") % (dimname, dimname)
+    buf, a, b = one(rx, body, what + ": copy loop into the LAPACK array")
+    if a == b:
+        raise TranslateError("%s: copy loop reads matrix[%s][%s]" % (what, a, b))
+    return buf, a == "j"
+
+
+def translate_tables(repo, src):
+    out = ["-- GENERATED by tools/translators/tr_c08.py from dune/common/fmatrixev.hh and dynmatrixev.hh -- do not edit",
+           "set_option linter.unusedVariables false",
+           "namespace DV.C08.Gen",
+           ""]
+
+    # ---- eig0: rows of A - ev I, the three cross products, their norms, the running maximum, the result ----------
+    e0 = body_after(src, r"void\s+eig0\s*\([^)]*\)\s*\{", "eig0")
+    hdr = one(r"void\s+eig0\s*\(\s*const\s+FieldMatrix\s*<\s*K\s*,\s*3\s*,\s*3\s*>\s*&\s*(\w+)\s*,\s*K\s+(\w+)\s*,\s*FieldVector\s*<\s*K\s*,\s*3\s*>\s*&\s*(\w+)\s*\)",
+              src, "eig0 signature")
+    mat, evn, outv = hdr
+    rows = re.findall(r"Vector\s+(\w+)\s*=\s*\{([^}]*)\}\s*;", e0)
+    if len(rows) != 3:
+        raise TranslateError("eig0: expected three row definitions")
+    rown = [r[0] for r in rows]
+    out.append("section\nvariable {K : Type} [Add K] [Sub K] [Mul K] [Div K] [Neg K] [NatCast K]\n")
+    for k, (nm, txt) in enumerate(rows):
+        comps = tr_list(txt.replace(mat + "[", "matrix[").replace(evn, "eval0"), M3 + ["eval0"])
+        if len(comps) != 3:
+            raise TranslateError("eig0: row is not a triple")
+        out.append("/-- `Vector %s = {%s};` -/\ndef eig0_row%d (m00 m01 m02 m10 m11 m12 m20 m21 m22 eval0 : K) : K × K × K :=\n  (%s, %s, %s)\n"
+                   % (nm, txt.strip(), k, comps[0], comps[1], comps[2]))
+    out.append("end\n")
+    crs = re.findall(r"Vector\s+(\w+)\s*=\s*crossProduct\s*\(\s*(\w+)\s*,\s*(\w+)\s*\)\s*;", e0)
+    if len(crs) != 3 or any(a not in rown or b not in rown for _, a, b in crs):
+        raise TranslateError("eig0: expected three cross products of rows")
+    crn = [c[0] for c in crs]
+    out.append("/-- `%s` : cross product k is taken of rows (a, b) -/\ndef eig0_crossPairs : List (Nat × Nat) := [%s]\n"
+               % ("; ".join("%s = crossProduct(%s, %s)" % c for c in crs),
+                  ", ".join("(%d, %d)" % (rown.index(a), rown.index(b)) for _, a, b in crs)))
+    nrm = re.findall(r"auto\s+(\w+)\s*=\s*(\w+)\s*\.\s*two_norm\s*\(\s*\)\s*;", e0)
+    if len(nrm) != 3 or any(c not in crn for _, c in nrm):
+        raise TranslateError("eig0: expected three norms of the cross products")
+    dn = [d[0] for d in nrm]
+    out.append("/-- `%s` : length k belongs to cross product .. -/\ndef eig0_normOf : List Nat := [%s]\n"
+               % ("; ".join("%s = %s.two_norm()" % d for d in nrm), ", ".join(str(crn.index(c)) for _, c in nrm)))
+    ini = one(r"auto\s+dmax\s*=\s*(\w+)\s*;\s*int\s+imax\s*=\s*([0-9])\s*;", e0, "eig0 initial maximum")
+    if ini[0] not in dn:
+        raise TranslateError("eig0: dmax starts from %r" % ini[0])
+    out.append("/-- `auto dmax = %s; int imax = %s;` -/\ndef eig0_init : Nat × Nat := (%d, %s)\n" % (ini[0], ini[1], dn.index(ini[0]), ini[1]))
+    after = e0[re.search(r"int\s+imax\s*=\s*[0-9]\s*;", e0).end():]
+    m_res = re.search(r"if\s*\(\s*imax\s*==", after)
+    if not m_res:
+        raise TranslateError("eig0: result selection not found")
+    upd, res = after[:m_res.start()], after[m_res.start():]
+    steps, pos = [], 0
+    for m in re.finditer(r"if\s*\(\s*(\w+)\s*>\s*dmax\s*\)\s*(\{[^{}]*\}|[^;{}]*;)", upd):
+        if upd[pos:m.start()].strip():
+            raise TranslateError("eig0: unexpected statements %r in the maximum search" % upd[pos:m.start()].strip()[:60])
+        pos = m.end()
+        d, blk = m.group(1), m.group(2).strip("{}")
+        stm = [x.strip() for x in blk.split(";") if x.strip()]
+        newd, newi = None, None
+        for st in stm:
+            ma = re.match(r"^dmax\s*=\s*(\w+)$", st)
+            mb = re.match(r"^imax\s*=\s*([0-9])$", st)
+            if ma and newd is None:
+                newd = ma.group(1)
+            elif mb and newi is None:
+                newi = mb.group(1)
+            else:
+                raise TranslateError("eig0: statement %r outside the grammar" % st)
+        if d not in dn or newi is None or (newd is not None and newd not in dn):
+            raise TranslateError("eig0: maximum update %r outside the grammar" % m.group(0)[:60])
+        steps.append((dn.index(d), -1 if newd is None else dn.index(newd), int(newi)))
+    if upd[pos:].strip() or len(steps) != 2:
+        raise TranslateError("eig0: the maximum search is not two conditional updates")
+    out.append("/-- the updates `if (d_c > dmax) { dmax = d_u; imax = i; }` as (c, u, i); u = 3 means dmax is not updated -/\n"
+               "def eig0_steps : List (Nat × Nat × Nat) := [%s]\n" % ", ".join("(%d, %d, %d)" % (c, 3 if u < 0 else u, i) for c, u, i in steps))
+    rr = re.match(r"^if\s*\(\s*imax\s*==\s*0\s*\)\s*%s\s*=\s*(\w+)\s*/\s*(\w+)\s*;\s*else\s+if\s*\(\s*imax\s*==\s*1\s*\)\s*%s\s*=\s*(\w+)\s*/\s*(\w+)\s*;\s*"
+                  r"else\s+%s\s*=\s*(\w+)\s*/\s*(\w+)\s*;\s*$" % (outv, outv, outv), res.strip())
+    if not rr or any(rr.group(k) not in crn for k in (1, 3, 5)) or any(rr.group(k) not in dn for k in (2, 4, 6)):
+        raise TranslateError("eig0: result selection outside the grammar")
+    out.append("/-- `imax == 0 / 1 / else`: evec0 = cross product .. divided by length .. -/\n"
+               "def eig0_result : List (Nat × Nat) := [%s]\n" % ", ".join("(%d, %d)" % (crn.index(rr.group(k)), dn.index(rr.group(k + 1))) for k in (1, 3, 5)))
+
+    # ---- 3x3 eigenvector assembly: which eigenvalue goes to eig0 / eig1, where the vectors are stored ---------------
+    v3 = body_after(src, r"static\s+void\s+eigenValuesVectorsImpl\s*\(\s*const\s+FieldMatrix\s*<\s*K\s*,\s*3\s*,\s*3\s*>[^)]*\)\s*\{",
+                    "3x3 eigenValuesVectorsImpl")
+    if not re.search(r"Matrix\s+evec\s*\(\s*0(?:\.0*)?\s*\)\s*;\s*Vector\s+eval\s*\(\s*eigenValues\s*\)\s*;", v3):
+        raise TranslateError("3x3: `Matrix evec(0.0); Vector eval(eigenValues);` not found")
+    blk = (r"\{\s*Impl::eig0\(\s*scaledMatrix\s*,\s*eval\[([0-2])\]\s*,\s*evec\[([0-2])\]\s*\)\s*;\s*"
+           r"Impl::eig1\(\s*scaledMatrix\s*,\s*evec\[([0-2])\]\s*,\s*evec\[([0-2])\]\s*,\s*eval\[([0-2])\]\s*\)\s*;\s*"
+           r"evec\[([0-2])\]\s*=\s*Impl::crossProduct\(\s*evec\[([0-2])\]\s*,\s*evec\[([0-2])\]\s*\)\s*;\s*\}")
+    asm = one(r"if\s*\(\s*r\s*>=\s*0(?:\.0*)?\s*\)\s*" + blk + r"\s*else\s*" + blk, v3, "3x3 eigenvector assembly")
+    names = "(eig0: eigenvalue, target; eig1: first vector, target, eigenvalue; cross product: target, left, right)"
+    out.append("/-- branch `r >= 0` %s -/\ndef ev3_asmPos : Nat × Nat × Nat × Nat × Nat × Nat × Nat × Nat := (%s)\n" % (names, ", ".join(asm[:8])))
+    out.append("/-- branch `r < 0` -/\ndef ev3_asmNeg : Nat × Nat × Nat × Nat × Nat × Nat × Nat × Nat := (%s)\n" % ", ".join(asm[8:]))
+
+    # ---- 3x3 diagonal special case: initial values / vectors and the compare-and-swap network ----------------------
+    dg = body_after(v3, r"if\s*\(\s*offDiagNorm\s*<=[^)]*\)\s*\)\s*\{", "3x3 diagonal special case")
+    iv = one(r"^\s*eigenValues\s*=\s*\{([^}]*)\}\s*;", dg, "3x3 diagonal values")
+    ivm = [re.match(r"^scaledMatrix\[([0-2])\]\[([0-2])\]$", norm_ws(x)) for x in iv.split(",")]
+    if len(ivm) != 3 or not all(ivm):
+        raise TranslateError("3x3 diagonal special case: initial values outside the grammar")
+    out.append("/-- `eigenValues = {%s};` -/\ndef ev3_diagInit : List (Nat × Nat) := [%s]\n"
+               % (iv.strip(), ", ".join("(%s, %s)" % (m.group(1), m.group(2)) for m in ivm)))
+    vv = one(r"eigenVectors\s*=\s*\{\s*(\{[^;]*\})\s*\}\s*;", dg, "3x3 diagonal vectors")
+    vrows = re.findall(r"\{([^{}]*)\}", vv)
+    ent = [[norm_ws(x) for x in r.split(",")] for r in vrows]
+    if len(ent) != 3 or any(len(r) != 3 for r in ent) or any(not re.match(r"^[01](?:\.0*)?$", x) for r in ent for x in r):
+        raise TranslateError("3x3 diagonal special case: initial vectors outside the grammar")
+    out.append("/-- `eigenVectors = {%s};` -/\ndef ev3_diagVecs : List (List Nat) := [%s]\n"
+               % (norm_ws(vv), ", ".join("[%s]" % ", ".join(x[0] for x in r) for r in ent)))
+    rest = dg[re.search(r"eigenVectors\s*=\s*\{\s*\{[^;]*\}\s*\}\s*;", dg).end():]
+    sw_rx = (r"if\s*\(\s*eigenValues\[([0-2])\]\s*>\s*eigenValues\[([0-2])\]\s*\)\s*\{\s*"
+             r"std::swap\(\s*eigenValues\[([0-2])\]\s*,\s*eigenValues\[([0-2])\]\s*\)\s*;\s*"
+             r"std::swap\(\s*eigenVectors\[([0-2])\]\s*,\s*eigenVectors\[([0-2])\]\s*\)\s*;\s*\}")
+    sws = re.findall(sw_rx, rest)
+    if re.sub(sw_rx, "", rest).strip() or not sws:
+        raise TranslateError("3x3 diagonal special case: sort network outside the grammar")
+    out.append("/-- `if (eigenValues[a] > eigenValues[b]) { swap(eigenValues[c], eigenValues[d]); swap(eigenVectors[e], eigenVectors[f]); }` -/\n"
+               "def ev3_diagSwaps : List (Nat × Nat × Nat × Nat × Nat × Nat) := [%s]\n" % ", ".join("(%s)" % ", ".join(s) for s in sws))
+
+    # ---- LAPACK call sites -------------------------------------------------------------------------------------------
+    jobs = one(r"enum\s+Jobs\s*\{([^}]*)\}", src, "enum Jobs")
+    jv = dict((k.strip(), int(v)) for k, v in (x.split("=") for x in jobs.split(",")))
+    if sorted(jv) != ["EigenvaluesEigenvectors", "OnlyEigenvalues"]:
+        raise TranslateError("enum Jobs changed")
+    lb = body_after(src, r"static\s+void\s+eigenValuesVectorsLapackImpl\s*\([^)]*\)\s*\{", "eigenValuesVectorsLapackImpl")
+    if not re.search(r"const\s+long\s+int\s+N\s*=\s*dim\s*;", lb):
+        raise TranslateError("LAPACK (symmetric): N = dim not found")
+    a = call_args(lb, "eigenValuesLapackCall", "LAPACK (symmetric)")
+    if len(a) != 9 or a[2] != "&N" or a[4] != "&N" or a[8] != "&info":
+        raise TranslateError("LAPACK (symmetric): call arguments changed: %r" % (a,))
+    jz = char_decl(lb, ptr_name(a[0], "jobz"), "LAPACK (symmetric)")
+    ul = char_decl(lb, ptr_name(a[1], "uplo"), "LAPACK (symmetric)")
+    if jz[0] != "tab" or ul[0] != "lit":
+        raise TranslateError("LAPACK (symmetric): jobz/uplo outside the grammar")
+    env = {"N": "n", "dim": "n"}
+    lw = nat_expr(int_decl(lb, ptr_name(a[7], "lwork"), "LAPACK (symmetric)"), env)
+    env2 = dict(env)
+    env2[ptr_name(a[7], "lwork")] = lw
+    ws = one(r"LapackNumType\s+%s\s*\[([^\]]+)\]\s*;" % ptr_name(a[6], "work"), lb, "LAPACK (symmetric): work array")
+    buf, transposed = pack_orientation(lb, "dim", "LAPACK (symmetric)")
+    if buf != ptr_name(a[3], "a"):
+        raise TranslateError("LAPACK (symmetric): the packed array is not the one handed over")
+    ms = one(r"LapackNumType\s+%s\s*\[([^\]]+)\]\s*;" % buf, lb, "LAPACK (symmetric): matrix array")
+    cb = one(r"if\s*\(\s*Tag\s*==\s*(?:Jobs::)?EigenvaluesEigenvectors\s*\)\s*\{\s*row\s*=\s*0\s*;\s*for\s*\(\s*int\s+i\s*=\s*0\s*;\s*i\s*<\s*dim\s*;\s*\+\+i\s*\)\s*\{\s*"
+             r"for\s*\(\s*int\s+j\s*=\s*0\s*;\s*j\s*<\s*dim\s*;\s*\+\+j\s*,\s*\+\+row\s*\)\s*\{\s*eigenVectors\s*\[\s*([ij])\s*\]\s*\[\s*([ij])\s*\]\s*=\s*%s\s*\[\s*row\s*\]\s*;" % buf,
+             lb, "LAPACK (symmetric): copy-back loop")
+    if cb[0] == cb[1]:
+        raise TranslateError("LAPACK (symmetric): copy-back writes eigenVectors[%s][%s]" % cb)
+    out.append("/-- `enum Jobs`; `const char jobz = \"%s\"[Tag];`: the job character for eigenvalues only / with eigenvectors -/\n"
+               "def lapSym_jobz : Char × Char := ('%s', '%s')\n" % (jz[1], jz[1][jv["OnlyEigenvalues"]], jz[1][jv["EigenvaluesEigenvectors"]]))
+    out.append("/-- `const char uplo = '%s';` -/\ndef lapSym_uplo : Char := '%s'\n" % (ul[1], ul[1]))
+    out.append("/-- `lwork` of ?syev for order n -/\ndef lapSym_lwork (n : Nat) : Nat := %s\n" % lw)
+    out.append("/-- number of entries of the work array handed to ?syev -/\ndef lapSym_workSize (n : Nat) : Nat := %s\n" % nat_expr(ws, env2))
+    out.append("/-- number of entries of the flat matrix array -/\ndef lapSym_matSize (n : Nat) : Nat := %s\n" % nat_expr(ms, env2))
+    out.append("/-- copy loop reads `matrix[j][i]` (true) or `matrix[i][j]` (false) -/\ndef lapSym_packTransposed : Bool := %s\n" % ("true" if transposed else "false"))
+    out.append("/-- copy-back writes `eigenVectors[j][i]` (true) or `eigenVectors[i][j]` (false) -/\ndef lapSym_copyBackTransposed : Bool := %s\n" % ("true" if cb[0] == "j" else "false"))
+
+    nb = body_after(src, r"static\s+void\s+eigenValuesNonSym\s*\([^)]*\)\s*\{", "FMatrixHelp::eigenValuesNonSym")
+    a = call_args(nb, "eigenValuesNonsymLapackCall", "LAPACK (non-symmetric, fixed size)")
+    if len(a) != 14 or a[2] != "&N" or a[4] != "&N" or a[7] != "nullptr" or a[9] != "nullptr" or a[13] != "&info":
+        raise TranslateError("LAPACK (non-symmetric, fixed size): call arguments changed: %r" % (a,))
+    jl = char_decl(nb, ptr_name(a[0], "jobvl"), "LAPACK (non-symmetric, fixed size)")
+    jr = char_decl(nb, ptr_name(a[1], "jobvr"), "LAPACK (non-symmetric, fixed size)")
+    if jl[0] != "lit" or jr[0] != "lit":
+        raise TranslateError("LAPACK (non-symmetric, fixed size): job characters outside the grammar")
+    lw = nat_expr(int_decl(nb, ptr_name(a[12], "lwork"), "LAPACK (non-symmetric, fixed size)"), env)
+    env2 = dict(env)
+    env2[ptr_name(a[12], "lwork")] = lw
+    ws = one(r"LapackNumType\s+%s\s*\[([^\]]+)\]\s*;" % ptr_name(a[11], "work"), nb, "LAPACK (non-symmetric, fixed size): work array")
+    wrs = one(r"LapackNumType\s+%s\s*\[([^\]]+)\]\s*;" % ptr_name(a[5], "wr"), nb, "LAPACK (non-symmetric, fixed size): wr array")
+    wis = one(r"LapackNumType\s+%s\s*\[([^\]]+)\]\s*;" % ptr_name(a[6], "wi"), nb, "LAPACK (non-symmetric, fixed size): wi array")
+    buf, transposed = pack_orientation(nb, "dim", "LAPACK (non-symmetric, fixed size)")
+    if buf != ptr_name(a[3], "a"):
+        raise TranslateError("LAPACK (non-symmetric, fixed size): the packed array is not the one handed over")
+    out.append("/-- `jobvl`, `jobvr` of FMatrixHelp::eigenValuesNonSym -/\ndef lapNsF_jobs : Char × Char := ('%s', '%s')\n" % (jl[1], jr[1]))
+    out.append("def lapNsF_lwork (n : Nat) : Nat := %s\n" % lw)
+    out.append("def lapNsF_workSize (n : Nat) : Nat := %s\n" % nat_expr(ws, env2))
+    out.append("/-- entries of the arrays for the real / imaginary parts -/\ndef lapNsF_wSize (n : Nat) : Nat × Nat := (%s, %s)\n" % (nat_expr(wrs, env2), nat_expr(wis, env2)))
+    out.append("def lapNsF_packTransposed : Bool := %s\n" % ("true" if transposed else "false"))
+
+    dsrc = strip_comments(open(os.path.join(repo, "dune/common/dynmatrixev.hh")).read())
+    db = body_after(dsrc, r"static\s+void\s+eigenValuesNonSym\s*\([^)]*\)\s*\{", "DynamicMatrixHelp::eigenValuesNonSym")
+    if not re.search(r"const\s+long\s+int\s+N\s*=\s*matrix\s*\.\s*rows\(\)\s*;", db):
+        raise TranslateError("LAPACK (dynamic): N = matrix.rows() not found")
+    a = call_args(db, "eigenValuesNonsymLapackCall", "LAPACK (dynamic)")
+    if len(a) != 14 or a[2] != "&N" or a[4] != "&N" or a[7] != "nullptr" or a[10] != "&N" or a[13] != "&info":
+        raise TranslateError("LAPACK (dynamic): call arguments changed: %r" % (a,))
+    bools = ("eigenVectors",)
+    jl = char_decl(db, ptr_name(a[0], "jobvl"), "LAPACK (dynamic)", bools)
+    jr = char_decl(db, ptr_name(a[1], "jobvr"), "LAPACK (dynamic)", bools)
+
+    def jc(j):
+        return "('%s', '%s')" % ((j[1], j[1]) if j[0] == "lit" else (j[1], j[2]))
+    if jl[0] == "tab" or jr[0] == "tab":
+        raise TranslateError("LAPACK (dynamic): job characters outside the grammar")
+    envd = {"N": "n", "__bools__": bools}
+    lw = nat_expr(int_decl(db, ptr_name(a[12], "lwork"), "LAPACK (dynamic)"), envd)
+    envd2 = dict(envd)
+    envd2[ptr_name(a[12], "lwork")] = lw
+
+    def heap(name, what):
+        """`auto name = std::make_unique<double[]>(EXPR);` (a fresh buffer for every call) or
+        `auto name = eigenVectors ? std::make_unique<double[]>(EXPR) : std::unique_ptr<double[]>{};`"""
+        e = one(r"auto\s+%s\s*=\s*([^;]+);" % name, db, "LAPACK (dynamic): buffer " + what).strip()
+        m = re.match(r"^std::make_unique\s*<\s*double\s*\[\]\s*>\s*\((.+)\)$", e)
+        if m:
+            return nat_expr(m.group(1), envd2)
+        m = re.match(r"^(\w+)\s*\?\s*std::make_unique\s*<\s*double\s*\[\]\s*>\s*\((.+)\)\s*:\s*std::unique_ptr\s*<\s*double\s*\[\]\s*>\s*\{\s*\}$", e)
+        if m and m.group(1) in bools:
+            return "(if vec then %s else 0)" % nat_expr(m.group(2), envd2)
+        raise TranslateError("LAPACK (dynamic): buffer %s = %r outside the grammar" % (name, e))
+    buf, transposed = pack_orientation(db, "N", "LAPACK (dynamic)")
+    if buf != ptr_name(a[3], "a"):
+        raise TranslateError("LAPACK (dynamic): the packed array is not the one handed over")
+    out.append("/-- `jobvl`, `jobvr` of DynamicMatrixHelp::eigenValuesNonSym as (with eigenvectors, without) -/\n"
+               "def lapNsD_jobvl : Char × Char := %s\ndef lapNsD_jobvr : Char × Char := %s\n" % (jc(jl), jc(jr)))
+    out.append("def lapNsD_lwork (n : Nat) (vec : Bool) : Nat := %s\n" % lw)
+    out.append("def lapNsD_workSize (n : Nat) (vec : Bool) : Nat := %s\n" % heap(ptr_name(a[11], "work"), "work"))
+    out.append("def lapNsD_matSize (n : Nat) (vec : Bool) : Nat := %s\n" % heap(buf, "matrix"))
+    out.append("def lapNsD_wSize (n : Nat) (vec : Bool) : Nat × Nat := (%s, %s)\n" % (heap(ptr_name(a[5], "wr"), "wr"), heap(ptr_name(a[6], "wi"), "wi")))
+    out.append("def lapNsD_vrSize (n : Nat) (vec : Bool) : Nat := %s\n" % heap(ptr_name(a[9], "vr"), "vr"))
+    out.append("def lapNsD_packTransposed : Bool := %s\n" % ("true" if transposed else "false"))
+    # copy-back of vector i: `std::copy(vr + N*i, vr + N*(i+1), &v[0])`
+    vrn = ptr_name(a[9], "vr")
+    cp = one(r"std::copy\s*\(([^;]*)\)\s*;", db, "LAPACK (dynamic): copy-back")
+    cpa = [norm_ws(x) for x in cp.split(",")]
+    if cpa != ["%s.get()+N*i" % vrn, "%s.get()+N*(i+1)" % vrn, "&v[0]"]:
+        raise TranslateError("LAPACK (dynamic): copy-back %r outside the grammar" % (cpa,))
+    out.append("/-- vector i is copied from `vr[N*i .. N*(i+1))` -/\ndef lapNsD_copyBackStride : Bool := true\n")
+    # ---- the four public symmetric entry points: which job they run ------------------------------------------------
+    ej = []
+    for fn, impl in (("eigenValues", "eigenValuesVectorsImpl"), ("eigenValuesVectors", "eigenValuesVectorsImpl"),
+                     ("eigenValuesLapack", "eigenValuesVectorsLapackImpl"), ("eigenValuesVectorsLapack", "eigenValuesVectorsLapackImpl")):
+        fb = body_after(src, r"static\s+void\s+%s\s*\(\s*const\s+FieldMatrix\s*<\s*K\s*,\s*dim\s*,\s*dim\s*>[^)]*\)\s*\{" % fn, "FMatrixHelp::" + fn)
+        job = one(r"Impl::%s\s*<\s*Impl::Jobs::(\w+)\s*>\s*\(\s*matrix\s*,\s*eigenValues\s*,\s*(\w+)\s*\)\s*;" % impl, fb, "FMatrixHelp::" + fn + ": call of Impl::" + impl)
+        if job[0] not in jv:
+            raise TranslateError("FMatrixHelp::%s: unknown job %r" % (fn, job[0]))
+        if (job[1] == "eigenVectors") != (fn in ("eigenValuesVectors", "eigenValuesVectorsLapack")):
+            raise TranslateError("FMatrixHelp::%s: eigenvector argument is %r" % (fn, job[1]))
+        ej.append("true" if job[0] == "EigenvaluesEigenvectors" else "false")
+    out.append("/-- does the entry point run the eigenvector job: eigenValues, eigenValuesVectors, eigenValuesLapack (into a dummy), eigenValuesVectorsLapack -/\n"
+               "def entryJobs : Bool × Bool × Bool × Bool := (%s)\n" % ", ".join(ej))
+    out.append("end DV.C08.Gen")
+    return ("DuneVerif/Gen/C08T.lean", "\n".join(out) + "\n")
+
+
 M2 = ["m00", "m01", "m10", "m11"]
 M3 = ["m00", "m01", "m02", "m10", "m11", "m12", "m20", "m21", "m22"]
 
@@ -383,7 +694,7 @@ def translate(repo):
 
     out.append("end")
     out.append("end DV.C08.Gen")
-    return [("DuneVerif/Gen/C08.lean", "\n".join(out) + "\n")]
+    return [("DuneVerif/Gen/C08.lean", "\n".join(out) + "\n"), translate_tables(repo, src)]
 
 
 if __name__ == "__main__":
